@@ -13,7 +13,7 @@
 (* PlannerScalar / PlannerSse / PlannerAvx / CallProtocol / Exec and only  *)
 (* ever produce MODEL-DRIFT.                                               *)
 (***************************************************************************)
-EXTENDS PlannerAvx, Scratch, Field, TLC
+EXTENDS PlannerAvx, Scratch, Ops, Field, TLC
 
 CONSTANT Prop      \* "C01" .. "C15", or "ALL"
 
@@ -321,7 +321,13 @@ CallEnd(cid, outcome, obs, role, key, outh) ==
                                  /\ UNCHANGED refs
             [] OTHER -> UNCHANGED refs
     /\ pending' = [x \in DOMAIN pending \ {cid} |-> pending[x]]
-    /\ UNCHANGED <<cfg, planners, cache, insts, planning, drift>>
+    \* faithful cost model: the measured operation count equals Ops.tla's count for the tree today's planner designs
+    /\ drift' = drift + (LET inst == insts[pending[cid].iid] IN
+                         SeqSum([i \in DOMAIN obs |->
+                            IF obs[i].kind = "ops" /\ inst.kind \in {"auto", "scalar"} /\ inst.elem \notin SimdElems /\ inst.n < 100000
+                            THEN DriftIf(obs[i].a # TreeOps(ScalarPlan(inst.n)), <<"ops-model", inst.n, obs[i].a, TreeOps(ScalarPlan(inst.n))>>)
+                            ELSE 0]))
+    /\ UNCHANGED <<cfg, planners, cache, insts, planning>>
 
 -----------------------------------------------------------------------------
 (* State invariants of the property layer (checked on the bounded model and on every trace). *)
